@@ -92,9 +92,9 @@ FLOWS = ['lam', 'trans', 'turb']
 STEPS = {'limit': None, 'half': 'half', 'mm3': 0.003, 'cap1cm': 0.01,
          'dyadic': 0.00390625, 'mm1.25': 0.00125}
 STEP_CASES = ['limit', 'half', 'mm3', 'cap1cm', 'dyadic', 'mm1.25']
-GRID_CASES = ['plane', 'inside', 'inlet', 'outlet', 'two', 'fixed3']
+GRID_CASES = ['plane', 'inside', 'inlet', 'outlet', 'two', 'fixed3', 'fixed3-desc']
 MESH_DEPENDENT = ('plane', 'inside', 'two')
-N_GRIDS = {'none': 0, 'plane': 1, 'inside': 1, 'inlet': 1, 'outlet': 1, 'two': 2, 'fixed3': 3}
+N_GRIDS = {'none': 0, 'plane': 1, 'inside': 1, 'inlet': 1, 'outlet': 1, 'two': 2, 'fixed3': 3, 'fixed3-desc': 3}
 
 
 # ----------------------------------------------------------------------
@@ -218,6 +218,8 @@ def place_grids(gc, z, lo, hi):
         return [hi]
     if gc == 'fixed3':
         return [0.05, 0.15, 0.25]
+    if gc == 'fixed3-desc':
+        return [0.25, 0.05, 0.15]      # the order of the listed positions is free
     zz = [float(x) for x in z]
     interior = [i for i, p in enumerate(zz) if lo < p < hi and i + 1 < len(zz) and zz[i + 1] <= hi]
     i = interior[len(interior) // 2]
